@@ -36,6 +36,26 @@ def _representation_string(obj, *, name=None, attrs=None):
     return f"{name}({properties})"
 
 
+_UINT64_MOD = 1 << 64
+
+
+def _c_int(value: int, unsigned: bool):
+    """
+    Wrap a Python integer to the 64-bit integer type used for preprocessor
+    arithmetic: uintmax_t if `unsigned`, intmax_t otherwise.
+    """
+    value %= _UINT64_MOD
+    if unsigned:
+        return np.uint64(value)
+    if value >= _UINT64_MOD // 2:
+        value -= _UINT64_MOD
+    return np.int64(value)
+
+
+def _is_unsigned(value) -> bool:
+    return isinstance(value, np.uint64)
+
+
 class TokenError(ValueError):
     """
     Represents an error encountered during tokenization.
@@ -2126,7 +2146,11 @@ class ExpressionEvaluator(Parser):
             if operator.token == "?":
                 condition = expr
                 false_result = rhs
+                unsigned = _is_unsigned(true_result) or _is_unsigned(
+                    false_result,
+                )
                 expr = true_result if condition else false_result
+                expr = _c_int(int(expr), unsigned)
             else:
                 expr = self.__apply_binary_op(operator.token, expr, rhs)
 
@@ -2156,14 +2180,15 @@ class ExpressionEvaluator(Parser):
         """
         Apply the specified unary operator: op operand
         """
+        unsigned = _is_unsigned(operand)
         if op == "-":
-            return -operand
+            return _c_int(-int(operand), unsigned)
         elif op == "+":
-            return +operand
+            return _c_int(int(operand), unsigned)
         elif op == "!":
             return not operand
         elif op == "~":
-            return ~operand
+            return _c_int(~int(operand), unsigned)
         else:
             raise ValueError("Not a valid unary operator.")
 
@@ -2176,38 +2201,57 @@ class ExpressionEvaluator(Parser):
             return lhs or rhs
         elif op == "&&":
             return lhs and rhs
-        elif op == "|":
-            return lhs | rhs
+
+        # Shifts take the type of the (promoted) left operand.
+        if op in ["<<", ">>"]:
+            unsigned = _is_unsigned(lhs)
+            count = int(rhs)
+            # An out-of-range count is undefined; it can only be reached
+            # here in an operand that a real preprocessor does not evaluate.
+            if not 0 <= count < 64:
+                return _c_int(0, unsigned)
+            if op == "<<":
+                return _c_int(int(lhs) << count, unsigned)
+            return _c_int(int(lhs) >> count, unsigned)
+
+        # Usual arithmetic conversions: if either operand is unsigned, both
+        # are converted to unsigned.
+        unsigned = _is_unsigned(lhs) or _is_unsigned(rhs)
+        a = int(_c_int(int(lhs), unsigned))
+        b = int(_c_int(int(rhs), unsigned))
+        if op == "|":
+            return _c_int(a | b, unsigned)
         elif op == "^":
-            return lhs ^ rhs
+            return _c_int(a ^ b, unsigned)
         elif op == "&":
-            return lhs & rhs
+            return _c_int(a & b, unsigned)
         elif op == "==":
-            return lhs == rhs
+            return a == b
         elif op == "!=":
-            return lhs != rhs
+            return a != b
         elif op == "<":
-            return lhs < rhs
+            return a < b
         elif op == "<=":
-            return lhs <= rhs
+            return a <= b
         elif op == ">":
-            return lhs > rhs
+            return a > b
         elif op == ">=":
-            return lhs >= rhs
-        elif op == "<<":
-            return lhs << rhs
-        elif op == ">>":
-            return lhs >> rhs
+            return a >= b
         elif op == "+":
-            return lhs + rhs
+            return _c_int(a + b, unsigned)
         elif op == "-":
-            return lhs - rhs
+            return _c_int(a - b, unsigned)
         elif op == "*":
-            return lhs * rhs
-        elif op == "/":
-            return lhs // rhs  # force integer division
-        elif op == "%":
-            return lhs % rhs
+            return _c_int(a * b, unsigned)
+        elif op in ["/", "%"]:
+            # Division by zero is only an error if evaluated by a real
+            # preprocessor; operands of &&, || and ?: are evaluated eagerly
+            # here, so yield 0 instead of failing.
+            if b == 0:
+                return _c_int(0, unsigned)
+            if op == "/":
+                return _c_int(a // b, unsigned)
+            return _c_int(a % b, unsigned)
         else:
             raise ValueError("Not a binary operator.")
 
